@@ -184,7 +184,10 @@ impl SymbolTable {
         match term {
             Term::Variable(i) => format!("${}", self.print_symbol_default(*i as u64)),
             Term::Integer(i) => i.to_string(),
-            Term::Str(index) => format!("\"{}\"", self.print_symbol_default(*index)),
+            Term::Str(index) => format!(
+                "\"{}\"",
+                crate::builder::escape_string(&self.print_symbol_default(*index))
+            ),
             Term::Date(d) => OffsetDateTime::from_unix_timestamp(*d as i64)
                 .ok()
                 .and_then(|t| t.format(&Rfc3339).ok())
@@ -226,7 +229,9 @@ impl SymbolTable {
                         crate::datalog::MapKey::Str(s) => {
                             format!(
                                 "\"{}\": {}",
-                                self.print_symbol_default(*s as u64),
+                                crate::builder::escape_string(
+                                    &self.print_symbol_default(*s as u64)
+                                ),
                                 self.print_term(term)
                             )
                         }
